@@ -127,6 +127,8 @@ func shouldVerify(ct certTruth, v verifyCfg) (ok bool, why string) {
 	return true, "ok"
 }
 
+var clockOffsets = []time.Duration{0, time.Hour, 3 * 24 * time.Hour, 10 * 24 * time.Hour, 40 * 24 * time.Hour, 60 * 365 * 24 * time.Hour, 95 * 365 * 24 * time.Hour}
+
 func drawVerifyCfg(ch *simrt.Chooser, prev *verifyCfg) verifyCfg {
 	// IP-literal server names send no SNI and are verified against the certificate's IP SANs (the
 	// fixtures carry none, so they match only through InsecureServerNameToVerify)
@@ -137,8 +139,7 @@ func drawVerifyCfg(ch *simrt.Chooser, prev *verifyCfg) verifyCfg {
 	}
 	v.skipTime = ch.Bool(25, "skiptime")
 	v.skipVerify = ch.Bool(12, "skipverify")
-	offs := []time.Duration{0, time.Hour, 3 * 24 * time.Hour, 10 * 24 * time.Hour, 40 * 24 * time.Hour, 60 * 365 * 24 * time.Hour, 95 * 365 * 24 * time.Hour}
-	v.clockOff = offs[ch.Pick(len(offs), "clock")]
+	v.clockOff = clockOffsets[ch.Pick(len(clockOffsets), "clock")]
 	if prev != nil {
 		if ch.Bool(50, "same-name") {
 			v.serverName = prev.serverName // same cache key: resumption is attempted
@@ -174,6 +175,26 @@ func runC14(c *Ctx) {
 			prev = &cfgs[i-1]
 		}
 		cfgs[i] = drawVerifyCfg(ch, prev)
+		// a fifth of the second connections: the client clock is placed on the other side of the
+		// certificate's validity period than it was for the first connection (forwards or backwards),
+		// when one of the offsets in use does that
+		if prev != nil && ch.Bool(20, "validity-flip") {
+			inside := func(off time.Duration) bool {
+				now := BubbleEpoch.Add(off)
+				return !now.Before(ct.notBefore) && !now.After(ct.notAfter)
+			}
+			var flips []time.Duration
+			for _, off := range clockOffsets {
+				if inside(off) != inside(prev.clockOff) {
+					flips = append(flips, off)
+				}
+			}
+			if len(flips) > 0 {
+				cfgs[i].clockOff = flips[ch.Pick(len(flips), "flip-to")]
+				cfgs[i].serverName = prev.serverName
+				c.Probe("validity-flip")
+			}
+		}
 	}
 	// ECH dimension: no ECH, accepted (verified against the configured name as usual), rejected
 	// (verified against the config's public name, then ECHRejectionError)
